@@ -103,6 +103,31 @@ for name in names:
                 propagate(deepcopy(path), req, eqpt)
                 cases += 1
                 judge(f'{name}:{sp}:{junction}:{power_dbm}dBm')
+# fibres of either dispersion sign (D = -4, +4, +16.7 ps/nm/km) under each NLI method of the simulation parameters: the NLI of a
+# span is a noise power, never negative, whatever the sign of beta2
+_METHODS = ('gn_model_analytic', 'ggn_approx', 'ggn_spectrally_separated')
+for disp, method in ([(-4e-6, m_) for m_ in _METHODS] + [(4e-6, 'ggn_approx')] if a.tier == 'quick' else
+                     [(d_, m_) for d_ in (-4e-6, 4e-6, 1.67e-5) for m_ in _METHODS]):
+    sim_ = {'nli_params': {'method': method, 'dispersion_tolerance': 1, 'phase_shift_tolerance': 0.1, 'computed_number_of_channels': 5}}
+    if method != 'gn_model_analytic':
+        sim_['raman_params'] = {'flag': True, 'result_spatial_resolution': 10e3, 'solver_spatial_resolution': 50}
+    SimParams.set_params(deepcopy(sim_))
+    try:
+        topo = mesh(*TOPOLOGIES['line2'], spans={l: [80, 60] for l in TOPOLOGIES['line2'][1]})
+        for e in topo['elements']:
+            if e['type'] == 'Fiber':
+                e['params']['dispersion'] = disp
+        net, eqpt = design(topo)
+        req = request(eqpt, 'trx A', 'trx B', power=2e-3, tx_power=2e-3)
+        path = compute_constrained_path(net, req)
+        records.clear()
+        propagate(deepcopy(path), req, eqpt)
+        cases += 1
+        judge(f'line2:[80, 60]:dispersion {disp}:{method}')
+    except Exception as e:
+        wit.append({'key': f'line2:[80, 60]:dispersion {disp}:{method}', 'problems': [f'{type(e).__name__}: {e}'[:200]]})
+    finally:
+        SimParams.set_params({'nli_params': {'method': 'gn_model_analytic'}, 'raman_params': {'flag': False}})
 # Raman and multiband example networks shipped with the project
 from gnpy.tools.json_io import network_from_json
 for net_file, eq_file, sim, low_pump in (('raman_edfa_example_network.json', 'eqpt_config.json', 'sim_params.json', False),
@@ -130,4 +155,5 @@ for c, o in origs.items():
     c.__call__ = o
 finish('per-element share identity and monotone GSNR/OSNR_ASE/SNR_NLI along real paths', 'bounded',
        'gnpy.topology.request.propagate over Roadm/Fused/Fiber/RamanFiber/Edfa/Multiband_amplifier/Transceiver.__call__',
-       f'topologies {names} x spans x junctions x launch 0/6 dBm + shipped Raman and multiband examples', cases, wit, t0=t0)
+       f'topologies {names} x spans x junctions x launch 0/6 dBm + fibres of dispersion -4 / +4 / +16.7 ps/nm/km under the three NLI methods + '
+       'shipped Raman and multiband examples', cases, wit, t0=t0)
